@@ -285,6 +285,12 @@ func EscapeChar(char rune) (rune, error) {
 		return '\a', nil
 	case 't':
 		return '\t', nil
+	case 'b':
+		return '\b', nil
+	case 'f':
+		return '\f', nil
+	case 'v':
+		return '\v', nil
 	case '\\':
 		return '\\', nil
 	case '"':
